@@ -47,6 +47,16 @@ func vpH_C19_windows() {
 	pos := vpChoice("pos", len(t)-w+1)
 	replace := vpNondetBool("replace") // overwrite the window or insert before it
 	mid := vpNondetStringN("window", w)
+	if w > 1 {
+		// windows wider than one byte are ASCII: for symbolic non-ASCII runes the
+		// engine over-approximates unicode.IsLetter & co. (their result is left
+		// unconstrained), which with two such bytes only yields paths the native
+		// parser does not have (reported as ENCODER-DISCREPANCY, never as a
+		// violation). All 256 values are covered by the one-byte windows.
+		for i := 0; i < w; i++ {
+			vpAssume(mid[i] < 0x80)
+		}
+	}
 	var src string
 	if replace {
 		src = t[:pos] + mid + t[pos+w:]
